@@ -181,16 +181,16 @@ def _joint(case, ctx):
     if not np.all(np.isfinite(X)):
         ctx.check("c07.finite", False, "joint sample contains non-finite values", spec=spec)
         return
-    Xw = X.copy()
+    # Rosenblatt image, as probabilities.  A circular variable is unwrapped to (mu-pi, mu+pi] for ITS OWN cdf only;
+    # as a conditioning value the raw sampled number is used - that is what the sampler conditioned on.
+    P = np.empty_like(X)
     for i, dd in enumerate(spec["dims"]):
+        Xi = X.copy()
         if dd["fam"] == "vonmises":
-            pi_ = ref.params_at(i, None if ref.cond[i] is None else Xw[:, ref.cond[i]])
+            pi_ = ref.params_at(i, None if ref.cond[i] is None else X[:, ref.cond[i]])
             mu = np.asarray(pi_["mu"], float)
-            Xw[:, i] = mu + np.mod(Xw[:, i] - mu + math.pi, 2 * math.pi) - math.pi
-    # Rosenblatt image, as probabilities
-    P = np.empty_like(Xw)
-    for i in range(d):
-        P[:, i] = ref.cond_cdf(i, Xw)
+            Xi[:, i] = mu + np.mod(X[:, i] - mu + math.pi, 2 * math.pi) - math.pi
+        P[:, i] = ref.cond_cdf(i, Xi)
     eps = stats.dkw_eps(n)
     worst = None
     for i in range(d):
